@@ -589,6 +589,7 @@ def run_proxy_case(case):
     rig = Rig(raw=bool(case["raw"]), session=case.get("session", "default"))
     lines = []
     rec = {"events": None, "errors": []}
+    all_toks = []
     try:
         lines.append(" | " + rig.state_line())
         for op in case["ops"]:
@@ -620,10 +621,11 @@ def run_proxy_case(case):
             if lifecycle:
                 # the application's own start-up / shut-down writes (cursor shape, bracketed paste ...)
                 evs = [e for e in evs if e[0] in ("E", "D", "X")]
-            lines.append(" ".join(canon_events(evs)) + " | " + rig.state_line())
-        all_evs = [e for e in rig.events]
-        text = "".join(e[2] for e in all_evs if e[0] == "W" and _is_emission(all_evs, e))
-        started = any(e[0] == "D" for e in all_evs)
+            toks = canon_events(evs)
+            all_toks += toks
+            lines.append(" ".join(toks) + " | " + rig.state_line())
+        text = "".join(core.dec_str(t[3:]) for t in all_toks if t[0] == "O")
+        started = any(t == "D" for t in all_toks)
         quiescent = ("".join(rig.proxy._buffer) == "" and not any(isinstance(i, str) and i for i in rig.proxy._flush_queue.queue)
                      and rig.fl_pc() in ("idle", "exited") and not rig.pending)
         lines.append("out=%s term=%s quiescent=%d" % (enc_str(text), "-" if started else enc_str(rig.out.sio.getvalue()),
@@ -633,10 +635,6 @@ def run_proxy_case(case):
     if rec["errors"]:
         lines.append("teardown-errors:" + ";".join(rec["errors"])[:300])
     return lines, rec
-
-
-def _is_emission(evs, e):
-    return True
 
 
 def impl_lines(case):
